@@ -679,10 +679,20 @@ def _c17_pair(work, rbin, check, seed, idx):
     import random
     rng = random.Random(seed)
     mtu = rng.choice(campaigns.MTUS)
+    mtus = [None, mtu, rng.choice([m for m in campaigns.MTUS_RESIDUES if m != mtu])]     # the interfaces differ in everything
     own = [None, campaigns.OWN, campaigns.PEER]
     hs = [None,
-          campaigns.Hist(random.Random(seed + 1), own=own[1], mtu=mtu, wild=0.1).frames(40),
-          campaigns.Hist(random.Random(seed + 2), own=own[2], mtu=mtu, wild=0.1).frames(40)]
+          campaigns.Hist(random.Random(seed + 1), own=own[1], mtu=mtus[1], wild=0.1).frames(40),
+          campaigns.Hist(random.Random(seed + 2), own=own[2], mtu=mtus[2], wild=0.1).frames(40)]
+    if idx % 6 == 3:
+        # sessions whose frame sizes depend on the MTU (full QueryResp, chunked large property, long Emit)
+        from framegen import probe, discover, query, query_large, emit
+        for i in (1, 2):
+            m = campaigns.M1
+            hs[i] = [discover(0, m, gen=3, seq=1)] + [probe(campaigns.X, own[i], bytes([2, 0x35, 0, i, 0, j]), own[i]) for j in range(60)] \
+                + [query(m, own[i], seq=2), query(m, own[i], seq=3), query(m, own[i], seq=4),
+                   query_large(m, own[i], 0x0E, 0, seq=5), query_large(m, own[i], 0x0E, 600, seq=6),
+                   emit(m, own[i], [(1, 0, own[i], campaigns.X)] * 45, seq=7)]
     if idx % 6 == 0:
         # one interface under heavy load (more observations than any per-interface limit), the other
         # running an ordinary session: a responder-wide budget or shared table would show here
@@ -698,7 +708,7 @@ def _c17_pair(work, rbin, check, seed, idx):
         campaigns.std_cfg(s)
         for i in (1, 2):
             if i in which:
-                s.boot(i, own[i], mtu=mtu, wifi=i - 1, fill=0xA5, **campaigns.attrs_default(wifi=i - 1))
+                s.boot(i, own[i], mtu=mtus[i], wifi=i - 1, fill=0xA5, **campaigns.attrs_default(wifi=i - 1))
         if len(which) == 2:
             order = [1] * len(hs[1]) + [2] * len(hs[2])
             if idx % 6 != 0:
